@@ -109,13 +109,6 @@ theorem transfer_onto_any_destination (chunk : Nat) (hc : 1 ≤ chunk) (f : Filt
     (dst : Option Tree) : uploadOver chunk f ii t dst = overSpec f ii t dst :=
   uploadOver_eq_overlay chunk hc f ii t dst
 
-/-- **A filter object that is falsy is no filter** (the code tests `not filter or filter(fn)`): a callable
-defining `__bool__`/`__len__` as false is ignored and everything is transferred, whatever it would reject.
-With a truthy callable the filter is its predicate. -/
-theorem falsy_filter_is_no_filter (p : Name → Bool) :
-    effective (some ⟨false, p⟩) = none ∧ effective (some ⟨true, p⟩) = some p ∧ effective none = none :=
-  ⟨rfl, rfl, rfl⟩
-
 /-- the default chunk size of every transfer function, as found in the source, is ≥ 1: transfers that do
 not pass `chunk_size` are covered by the theorems above (regenerated from /repo on every run) -/
 theorem default_chunk_sizes_copy_exactly :
